@@ -761,7 +761,9 @@ where
     fe2o3_amqp::verif::install(fe2o3_amqp::verif::Hooks {
         spawn: Box::new(spawn_engine),
         sched_point: Box::new(|name| {
-            let den = with_state(|s| s.sched_yield_den);
+            // names under `observe.` only tell the harness where a future is: they never yield
+            // (a yield there would be an await point the production code does not have)
+            let den = if name.starts_with("observe.") { 0 } else { with_state(|s| s.sched_yield_den) };
             let y = if den == 0 { false } else { choice(den) == 1 };
             with_state(|s| {
                 let e = s.sched_points.entry(name).or_insert((0, 0));
@@ -922,6 +924,11 @@ impl Drop for PendingOp {
     fn drop(&mut self) {
         PENDING_OPS.with(|p| p.borrow_mut().retain(|(id, _)| *id != self.0));
     }
+}
+
+/// How often the named schedule / observation point of the code under test was reached
+pub fn sched_point_count(name: &str) -> u64 {
+    with_state(|s| s.sched_points.get(name).map(|e| e.0).unwrap_or(0))
 }
 
 /// Names of the operations issued through `op` that have not completed, oldest first
